@@ -249,15 +249,25 @@ def run(project, chk):
 
     # ------------------------------------------------------------ X3 must-pass-through
     # local boolean flags (only ever assigned True/False): tracked so that `flag = True ... if flag:` is not a bypass
-    flag_vars = set()
+    # (also copies of such flags: `done = changed` -- what an inlined helper's result variable looks like)
+    assigns = {}
     for n2 in own_nodes(fi.node):
         if isinstance(n2, ast.Assign) and len(n2.targets) == 1 and isinstance(n2.targets[0], ast.Name):
-            flag_vars.add(n2.targets[0].id)
+            assigns.setdefault(n2.targets[0].id, []).append(n2.value)
+    stored_otherwise = set()
     for n2 in own_nodes(fi.node):
-        if isinstance(n2, ast.Name) and isinstance(n2.ctx, ast.Store) and n2.id in flag_vars:
-            par = next((p2 for p2 in own_nodes(fi.node) if isinstance(p2, ast.Assign) and n2 in p2.targets), None)
-            if par is None or not (isinstance(par.value, ast.Constant) and isinstance(par.value.value, bool)):
-                flag_vars.discard(n2.id)
+        if isinstance(n2, ast.Name) and isinstance(n2.ctx, ast.Store):
+            par = next((p2 for p2 in own_nodes(fi.node) if isinstance(p2, ast.Assign) and len(p2.targets) == 1 and p2.targets[0] is n2), None)
+            if par is None:
+                stored_otherwise.add(n2.id)
+    flag_vars = set(assigns) - stored_otherwise - set(fi.params())
+    changed_f = True
+    while changed_f:
+        changed_f = False
+        for v in list(flag_vars):
+            if not all((isinstance(x, ast.Constant) and isinstance(x.value, bool)) or (isinstance(x, ast.Name) and x.id in flag_vars) for x in assigns[v]):
+                flag_vars.discard(v)
+                changed_f = True
 
     def reach_avoiding(start, avoid, stop_at_next=True):
         seen_nodes = set()
@@ -272,7 +282,9 @@ def run(project, chk):
             node = cfg.nodes[n]
             a = node.ast
             if node.kind == "stmt" and isinstance(a, ast.Assign) and len(a.targets) == 1 and isinstance(a.targets[0], ast.Name) and a.targets[0].id in flag_vars:
-                fl = frozenset({(k, v) for (k, v) in fl if k != a.targets[0].id} | {(a.targets[0].id, a.value.value)})
+                cur = dict(fl)
+                val = a.value.value if isinstance(a.value, ast.Constant) else cur.get(a.value.id)
+                fl = frozenset({(k, v) for (k, v) in fl if k != a.targets[0].id} | ({(a.targets[0].id, val)} if val is not None else set()))
             known = dict(fl)
             for (d, lab) in cfg.succ[n]:
                 if lab == "exc":
